@@ -97,7 +97,7 @@ pub async fn frame_streams(rng: &mut Rng, out: &mut Out, stats: &mut serde_json:
     let mut cases: Vec<(Vec<u8>, Vec<u8>, Vec<u8>, Vec<u8>, String)> = vec![];
     let ok_info = frame(&info);
     cases.push((ok_info.clone(), frame(&ans), [frame(&qry), frame(&qry)].concat(), frame(&evt), "well-formed connection".into()));
-    for len in [1u32 << 31, u32::MAX, 100_000_000, (ALLOC_BOUND as u32), (ALLOC_BOUND as u32) - 1] { cases.push((len.to_be_bytes().to_vec(), vec![], vec![], vec![], format!("K9 ConnectionInfo frame announcing {} bytes, no payload", len))); }
+    for len in [1u32 << 31, u32::MAX, 100_000_000, (ALLOC_BOUND as u32), (ALLOC_BOUND as u32) - 1] { cases.push((len.to_be_bytes().to_vec(), vec![], vec![], vec![], format!("former K9 (fixed feffa39): ConnectionInfo frame announcing {} bytes, no payload: must not be allocated", len))); }
     cases.push((0u32.to_be_bytes().to_vec(), vec![], frame(&qry), vec![], "ConnectionInfo frame of length zero".into()));
     cases.push((ok_info[..2].to_vec(), vec![], vec![], vec![], "stream ends inside the length".into()));
     cases.push((ok_info[..ok_info.len() - 3].to_vec(), vec![], vec![], vec![], "truncated ConnectionInfo".into()));
@@ -155,7 +155,7 @@ pub async fn frame_streams(rng: &mut Rng, out: &mut Out, stats: &mut serde_json:
 pub async fn ingest_date_stream(rng: &mut Rng, out: &mut Out, stats: &mut serde_json::Map<String, serde_json::Value>) {
     const MAX_MS: i64 = 8210266876799999;
     let model = "ing { Doc { name: String } }";
-    let mut dates: Vec<(i64, &str)> = vec![(0, "now"), (MAX_MS - 86_400_000, "last millisecond of the day before the last"), (MAX_MS - 86_399_999, "K10 first millisecond of the last day of the calendar"), (MAX_MS, "K10 last millisecond of the calendar"), (MAX_MS + 1, "K10 first millisecond beyond the calendar"), (i64::MAX, "K10 i64::MAX"), (-1, "before the rights exist"), (i64::MIN, "i64::MIN: before the rights exist")];
+    let mut dates: Vec<(i64, &str)> = vec![(0, "now"), (MAX_MS - 86_400_000, "last millisecond of the day before the last"), (MAX_MS - 86_399_999, "former K10 (fixed 8b3434e): first millisecond of the last day of the calendar"), (MAX_MS, "former K10: last millisecond of the calendar"), (MAX_MS + 1, "former K10: first millisecond beyond the calendar"), (i64::MAX, "former K10: i64::MAX"), (-1, "before the rights exist"), (i64::MIN, "i64::MIN: before the rights exist")];
     for _ in 0..scale(6, 60) { dates.push((match rng.below(4) { 0 => MAX_MS - rng.below(200_000_000) as i64, 1 => MAX_MS + 1 + rng.below(1_000_000_000) as i64, 2 => i64::MAX - rng.below(1000) as i64, _ => -(rng.below(1 << 40) as i64) }, "random")); }
     let mut writer_deaths = 0usize;
     let mut inst: Option<(Inst, [u8; 16], Node, i64)> = None;
